@@ -58,6 +58,7 @@ STEPS = [
     ("cols_swap", ".map_columns({'x': 'y', 'y': 'x'})", "map_columns"),
     ("ord_x", ".order_rows(['x'])", "order_rows"),
     ("ord_lim", ".order_rows(['g', 'x'], reverse=['x'], limit=2)", "order_rows"),
+    ("ord_biglim", ".order_rows(['x'], limit=7)", "order_rows"),
     ("join_inner", f".natural_join(b={E}, on=['g'], jointype='inner')", "natural_join"),
     ("join_left", f".natural_join(b={E}, on=['g'], jointype='left')", "natural_join"),
     ("join_right", f".natural_join(b={E}, on=['g'], jointype='right')", "natural_join"),
